@@ -1072,7 +1072,11 @@ class QuantityMeta(ClassWithDefinitionMeta):
         unit._qty_cls = cls
         if isinstance(define_as, Term):
             unit._definition = define_as
-            unit._equiv = define_as.normalized().num_elem or ONE
+            equiv = define_as.normalized().num_elem or ONE
+            if isinstance(equiv, Integral):
+                # int / int would give an (inexact) float as factor
+                equiv = Decimal(equiv)
+            unit._equiv = equiv
         else:
             assert define_as is None, "Unknown type of Unit definition."
             unit._definition = None
